@@ -506,9 +506,20 @@ func runC16Hammer(r *Run) {
 	}()
 	go func() {
 		defer wg.Done()
+		// a TLS pool of its own, renewed every 60 loads: every watcher started here lives as long as its pool, and a
+		// pool that collected thousands of them (one per distinct settings) would measure the machine, not the locking
+		var lp internal.TLSConfigPool
+		var lcancel context.CancelFunc = func() {}
+		defer func() { lcancel() }()
 		for i := 0; time.Now().Before(deadline); i++ {
-			// every third load uses settings nobody has loaded yet (a first-time load, which starts a watcher) while the CA
-			// file keeps rotating under the watchers of the settings loaded before
+			if i%60 == 0 {
+				lcancel()
+				var lctx context.Context
+				lctx, lcancel = context.WithCancel(ctx)
+				lp = internal.NewTLSConfigPool(lctx)
+			}
+			// every third load uses settings this pool has not loaded yet (a first-time load, which starts a watcher) while
+			// the CA file keeps rotating under the watchers of the settings loaded before
 			iv := time.Duration(10+i%3) * time.Millisecond
 			if i%3 == 0 {
 				iv = time.Duration(10_000_000 + i%200_000) // 10 ms + i ns: distinct settings, same pace
@@ -516,7 +527,7 @@ func runC16Hammer(r *Run) {
 			oc := &oidcv1.OIDCConfig{TrustedCaConfig: &oidcv1.OIDCConfig_TrustedCertificateAuthorityFile{TrustedCertificateAuthorityFile: caFile},
 				TrustedCertificateAuthorityRefreshInterval: durationpb.New(iv)}
 			guarded("tls-load", func() {
-				c, err := inthttp.NewHTTPClient(oc, pool, nil)
+				c, err := inthttp.NewHTTPClient(oc, lp, nil)
 				if err == nil {
 					tr := c.Transport.(*http.Transport)
 					if tr.TLSClientConfig != nil {
